@@ -238,6 +238,12 @@ func GenC18(seed, run uint64, tier, mode string) *plan.Plan {
 			}
 			p.Tasks = append(p.Tasks, tk)
 		}
+		if r.Chance(1, 3) {
+			// a herd: three or four callers run the same program on the same
+			// shared operands at the same time (every lookup, memo and
+			// single-flight of the tree is hit by all of them at once)
+			herd(p, r.Range(3, 4))
+		}
 		return p
 	}
 	heavyShare := r.Intn(4) // 0: no heavy ops in this run
@@ -256,7 +262,20 @@ func GenC18(seed, run uint64, tier, mode string) *plan.Plan {
 		}
 		p.Tasks = append(p.Tasks, tk)
 	}
+	if k < 8 && r.Chance(1, 12) {
+		herd(p, k)
+	}
 	return p
+}
+
+// herd replaces the tasks of p by n copies of its first task (same program,
+// same private register values, same shared operands).
+func herd(p *plan.Plan, n int) {
+	base := p.Tasks[0]
+	p.Tasks = nil
+	for t := 0; t < n; t++ {
+		p.Tasks = append(p.Tasks, plan.Task{Regs: append([]plan.Dec(nil), base.Regs...), Steps: append([]plan.Step(nil), base.Steps...)})
+	}
 }
 
 // c18World is the instantiated world of a plan.
